@@ -190,6 +190,80 @@ func (in *wasmInst) effAddr(base *sym.Term, off uint64, n int) uint32 {
 	return uint32(a)
 }
 
+// tableLoad handles a load whose symbolic address is confined, by the known bits and interval of the
+// address term alone, to a small in-bounds set of addresses (a table lookup): the value is an if-then-else
+// chain over those addresses instead of one path per address.  nil when that does not apply.
+func (in *wasmInst) tableLoad(base *sym.Term, off uint64, n int) *sym.Term {
+	if base.IsConst() {
+		return nil
+	}
+	c := in.m.ctx
+	ea := c.Add(c.Zext(base, 1), c.Const(33, off))
+	if ea.IsConst() {
+		return nil
+	}
+	lo, hi := ea.URange()
+	memEnd := uint64(in.pages) * wasmPage
+	if hi < lo || hi-lo > 8192 || hi+uint64(n) > memEnd {
+		// the term alone does not confine the address: ask the solver whether the path condition confines it
+		// to a window around one feasible value (an index already compared with a table length)
+		p := in.m.path
+		if memEnd < uint64(n)+1 || !p.ensureModel() {
+			return nil
+		}
+		mv := p.eval(ea)
+		if mv == nil || !mv.IsConst() {
+			return nil
+		}
+		ok := false
+		for _, half := range []uint64{256, 1024} {
+			lo, hi = 0, mv.Val+half
+			if mv.Val > half {
+				lo = mv.Val - half
+			}
+			if hi > memEnd-uint64(n) {
+				hi = memEnd - uint64(n)
+			}
+			if lo > hi {
+				return nil
+			}
+			outside := c.Or(c.Ult(ea, c.Const(33, lo)), c.Ult(c.Const(33, hi), ea))
+			if f, known := p.feasible(outside); known && !f {
+				ok = true
+				break
+			}
+		}
+		if !ok {
+			return nil
+		}
+	}
+	kz, ko := ea.Known()
+	tz := 0
+	for tz < 12 && (kz|ko)&(1<<uint(tz)) != 0 {
+		tz++
+	}
+	stride := uint64(1) << uint(tz)
+	low := ko & (stride - 1)
+	first := lo&^(stride-1) | low
+	if first < lo {
+		first += stride
+	}
+	if first > hi {
+		return nil
+	}
+	count := (hi-first)/stride + 1
+	if count > 2050 {
+		return nil
+	}
+	last := first + (count-1)*stride
+	res := in.load(uint32(last), n)
+	for k := count - 1; k > 0; k-- {
+		a := first + (k-1)*stride
+		res = c.Ite(c.Eq(ea, c.Const(33, a)), in.load(uint32(a), n), res)
+	}
+	return res
+}
+
 func (in *wasmInst) load(a uint32, n int) *sym.Term {
 	c := in.m.ctx
 	r := in.loadByte(a)
@@ -436,6 +510,10 @@ func (in *wasmInst) invoke(fidx uint32, args []*sym.Term) []*sym.Term {
 				n, w, signed = 4, 64, true
 			case 0x35:
 				n, w = 4, 64
+			}
+			if v := in.tableLoad(base, i.B, n); v != nil {
+				push(c.Resize(v, w, signed))
+				break
 			}
 			a := in.effAddr(base, i.B, n)
 			push(c.Resize(in.load(a, n), w, signed))
